@@ -292,5 +292,254 @@ theorem remote_shard_regs (s : Shard) (k : Nat) (d : RV) (hwf : s.NodeWF) (hd : 
       · exact Or.inr (mem_valRegs.mpr ⟨hk1, h2⟩)
   · exact Or.inl (mem_shardRegs.mpr ⟨v, h1, hs⟩)
 
+/-! ### the invariant -/
+
+theorem RInv_init (n : Nat) (causal : Bool) : RInv (init n causal) where
+  uniq := by
+    intro a b ha _ _ _ _
+    rcases ha with ⟨s, hs, ha⟩ | ha
+    · simp only [init, List.mem_map, List.mem_range] at hs
+      obtain ⟨i, _, rfl⟩ := hs
+      simp [shardRegs, Shard.init] at ha
+    · simp [sentRegs, init] at ha
+  own := by
+    intro i s _ a ha _
+    rcases ha with ⟨s', hs', ha⟩ | ha
+    · simp only [init, List.mem_map, List.mem_range] at hs'
+      obtain ⟨i', _, rfl⟩ := hs'
+      simp [shardRegs, Shard.init] at ha
+    · simp [sentRegs, init] at ha
+  rids := by
+    intro i s hs
+    simp only [init, List.getElem?_map] at hs
+    cases hr : (List.range n)[i]? with
+    | none => simp [hr] at hs
+    | some x =>
+      simp [hr] at hs
+      have hx : x = i := by
+        have := List.getElem?_eq_some_iff.mp hr
+        obtain ⟨hlt, he⟩ := this
+        simp at he; exact he.symm
+      subst hs hx
+      simp [Shard.init]
+  wf := by
+    intro s hs
+    simp only [init, List.mem_map, List.mem_range] at hs
+    obtain ⟨i, _, rfl⟩ := hs
+    exact ⟨⟨NMap.wf_nil, fun p hp => by cases hp⟩, Shard.inv_init _ _⟩
+  sent_wf := by intro m hm; cases hm
+
+theorem RInv_step_deliver {c : Cluster} (h : RInv c) (j idx : Nat) :
+    RInv (c.step (.deliver j idx)) := by
+  cases hs : c.nodes[j]? with
+  | none => simp only [step, hs]; exact h
+  | some s =>
+    cases hm : c.sent[idx]? with
+    | none => simp only [step, hs, hm]; exact h
+    | some m =>
+      by_cases ho : m.origin = j
+      · simp only [step, hs, hm, ho, if_true]; exact h
+      · have hstep : c.step (.deliver j idx) =
+            { c with
+              nodes := c.nodes.set j (Shard.applyRemote s m.key m.val)
+              log := c.log ++ [⟨j, m.key, m.val⟩] } := by
+          simp only [step, hs, hm, ho, if_false]
+        rw [hstep]
+        have hsmem : s ∈ c.nodes := List.mem_of_getElem? hs
+        have hmmem : m ∈ c.sent := List.mem_of_getElem? hm
+        have ⟨hnwf, hinv⟩ := h.wf s hsmem
+        have ⟨hmw, hmd⟩ := h.sent_wf m hmmem
+        have hjlt : j < c.nodes.length := (List.getElem?_eq_some_iff.mp hs).1
+        -- every register of the new cluster was already in the old one
+        have hold : ∀ a, InCluster ({ c with
+              nodes := c.nodes.set j (Shard.applyRemote s m.key m.val)
+              log := c.log ++ [⟨j, m.key, m.val⟩] } : Cluster) a → InCluster c a := by
+          intro a ha
+          rcases ha with ⟨s', hs', ha⟩ | ha
+          · rcases mem_set hs' with h1 | h1
+            · subst h1
+              rcases remote_shard_regs s m.key m.val hnwf hmw hinv.1 a ha with h2 | h2
+              · exact Or.inl ⟨s, hsmem, h2⟩
+              · right
+                simp only [sentRegs, List.mem_flatMap]
+                exact ⟨m, hmmem, h2⟩
+            · exact Or.inl ⟨s', h1, ha⟩
+          · exact Or.inr ha
+        refine ⟨?_, ?_, ?_, ?_, h.sent_wf⟩
+        · intro a b ha hb
+          exact h.uniq a b (hold a ha) (hold b hb)
+        · intro i s' hs' a ha hrid
+          by_cases hij : i = j
+          · subst hij
+            rw [List.getElem?_set_self hjlt] at hs'
+            cases hs'
+            have := h.own i s hs a (hold a ha) (by simpa [Shard.applyRemote] using hrid)
+            simp only [Shard.applyRemote, Stamp.update_time]
+            have := Nat.le_max_left s.clock.time m.val.ts.time
+            omega
+          · rw [List.getElem?_set_ne (Ne.symm hij)] at hs'
+            exact h.own i s' hs' a (hold a ha) hrid
+        · intro i s' hs'
+          by_cases hij : i = j
+          · subst hij
+            rw [List.getElem?_set_self hjlt] at hs'
+            cases hs'
+            have := h.rids i s hs
+            simp [Shard.applyRemote, this.1, this.2]
+          · rw [List.getElem?_set_ne (Ne.symm hij)] at hs'
+            exact h.rids i s' hs'
+        · intro s' hs'
+          rcases mem_set hs' with h1 | h1
+          · subst h1
+            exact ⟨Shard.nodewf_remote s m.key m.val hnwf hmw, C08.inv_remote s m.key m.val hinv hmd⟩
+          · exact h.wf s' h1
+
+theorem RInv_step_loc {c : Cluster} (h : RInv c) (i : Nat) (op : LOp) :
+    RInv (c.step (.loc i op)) := by
+  cases hs : c.nodes[i]? with
+  | none => simp only [step, hs]; exact h
+  | some s =>
+    have hsmem : s ∈ c.nodes := List.mem_of_getElem? hs
+    have ⟨hnwf, hinv⟩ := h.wf s hsmem
+    have hilt : i < c.nodes.length := (List.getElem?_eq_some_iff.mp hs).1
+    have hrid := h.rids i s hs
+    have hinv' : (Shard.step s op.toOp).1.Inv :=
+      C08.inv_step s op.toOp hinv (by cases op <;> trivial)
+    have hnwf' : (Shard.step s op.toOp).1.NodeWF := Shard.nodewf_step s op hnwf
+    have hmono := C08.clock_monotone s op.toOp
+    have hfresh := local_shard_regs s op hinv'.1
+    -- the new cluster's nodes / sent, uniformly for both delta cases
+    have key : ∀ (sent' : List Msg) (log' : List Absorbed),
+        (∀ a, a ∈ (sent'.flatMap (fun m => valRegs m.key m.val)) →
+          a ∈ sentRegs c ∨ a ∈ shardRegs (Shard.step s op.toOp).1) →
+        (∀ m ∈ sent', m.val.WF ∧ m.val.Dominated) →
+        RInv (Cluster.mk (c.nodes.set i (Shard.step s op.toOp).1) sent' log') := by
+      intro sent' log' hsent hsentwf
+      -- classification of every register of the new cluster
+      have hcls : ∀ a, InCluster (Cluster.mk (c.nodes.set i (Shard.step s op.toOp).1) sent' log') a →
+          InCluster c a ∨ (a ∈ shardRegs (Shard.step s op.toOp).1 ∧
+            Fresh s.clock (Shard.step s op.toOp).1.clock a.2.2) := by
+        intro a ha
+        have hnew : a ∈ shardRegs (Shard.step s op.toOp).1 →
+            InCluster c a ∨ (a ∈ shardRegs (Shard.step s op.toOp).1 ∧
+              Fresh s.clock (Shard.step s op.toOp).1.clock a.2.2) := by
+          intro h1
+          rcases hfresh a h1 with h2 | h2
+          · exact Or.inl (Or.inl ⟨s, hsmem, h2⟩)
+          · exact Or.inr ⟨h1, h2⟩
+        rcases ha with ⟨s', hs', ha⟩ | ha
+        · rcases mem_set hs' with h1 | h1
+          · subst h1; exact hnew ha
+          · exact Or.inl (Or.inl ⟨s', h1, ha⟩)
+        · rcases hsent a ha with h1 | h1
+          · exact Or.inl (Or.inr h1)
+          · exact hnew h1
+      refine ⟨?_, ?_, ?_, ?_, hsentwf⟩
+      · intro a b ha hb hk hsl hts
+        rcases hcls a ha with ha1 | ⟨ha1, ha2⟩ <;> rcases hcls b hb with hb1 | ⟨hb1, hb2⟩
+        · exact h.uniq a b ha1 hb1 hk hsl hts
+        · -- a old, b fresh: b's stamp is in node i's future, a's is not
+          exfalso
+          have := h.own i s hs a ha1 (by rw [hts, hb2.1, hrid.2])
+          have h3 := hb2.2.1
+          rw [hts] at this; omega
+        · exfalso
+          have := h.own i s hs b hb1 (by rw [← hts, ha2.1, hrid.2])
+          have h3 := ha2.2.1
+          rw [← hts] at this; omega
+        · exact shardRegs_functional hnwf' hinv'.1 ha1 hb1 hk hsl
+      · intro i' s' hs' a ha hridA
+        by_cases hii : i' = i
+        · subst hii
+          rw [List.getElem?_set_self hilt] at hs'
+          cases hs'
+          rcases hcls a ha with h1 | ⟨_, h2⟩
+          · have := h.own i' s hs a h1 (by rw [hridA, Shard.rid_step])
+            omega
+          · exact h2.2.2
+        · rw [List.getElem?_set_ne (Ne.symm hii)] at hs'
+          rcases hcls a ha with h1 | ⟨_, h2⟩
+          · exact h.own i' s' hs' a h1 hridA
+          · exfalso
+            have r1 := (h.rids i' s' hs').1
+            have r2 := hrid
+            have : a.2.2.ts.rid = i + 1 := by rw [h2.1, r2.2, r2.1]
+            rw [hridA, r1] at this
+            omega
+      · intro i' s' hs'
+        by_cases hii : i' = i
+        · subst hii
+          rw [List.getElem?_set_self hilt] at hs'
+          cases hs'
+          rw [Shard.rid_step, hmono.2]
+          exact hrid
+        · rw [List.getElem?_set_ne (Ne.symm hii)] at hs'
+          exact h.rids i' s' hs'
+      · intro s' hs'
+        rcases mem_set hs' with h1 | h1
+        · subst h1; exact ⟨hnwf', hinv'⟩
+        · exact h.wf s' h1
+    cases hd : (Shard.step s op.toOp).2 with
+    | none =>
+      have hstep : c.step (.loc i op) =
+          Cluster.mk (c.nodes.set i (Shard.step s op.toOp).1) c.sent c.log := by
+        simp only [step, hs, hd]
+      rw [hstep]
+      exact key c.sent c.log (fun a ha => Or.inl ha) h.sent_wf
+    | some d =>
+      have hstep : c.step (.loc i op) =
+          Cluster.mk (c.nodes.set i (Shard.step s op.toOp).1) (c.sent ++ [⟨i, op.key, d⟩])
+            (c.log ++ [⟨i, op.key, d⟩]) := by
+        simp only [step, hs, hd]
+      rw [hstep]
+      have hget := Shard.local_get s op d hd
+      have hdmem := NMap.mem_of_get hget
+      apply key
+      · intro a ha
+        simp only [List.flatMap_append, List.mem_append, List.flatMap_cons, List.flatMap_nil,
+          List.append_nil] at ha
+        rcases ha with h1 | h1
+        · exact Or.inl h1
+        · right
+          have := mem_valRegs.mp h1
+          apply mem_shardRegs.mpr
+          exact ⟨d, by rw [this.1]; exact hdmem, this.2⟩
+      · intro m hm
+        rcases List.mem_append.mp hm with h1 | h1
+        · exact h.sent_wf m h1
+        · simp only [List.mem_singleton] at h1
+          subst h1
+          exact ⟨hnwf'.2 _ hdmem, (hinv'.2 _ hdmem).2⟩
+
+theorem RInv_run (c : Cluster) (evs : List Ev) (h : RInv c) : RInv (c.run evs) := by
+  induction evs generalizing c with
+  | nil => exact h
+  | cons e evs ih =>
+    apply ih
+    cases e with
+    | loc i op => exact RInv_step_loc h i op
+    | deliver j idx => exact RInv_step_deliver h j idx
+
+/-- **a (key, slot, stamp) triple identifies one register** in every reachable cluster: the
+    `RegsConsistent` half of `Compat` holds of every execution -/
+theorem regs_consistent_of_run (n : Nat) (causal : Bool) (evs : List Ev) (k : Nat) :
+    RegsConsistent (regsOf ((init n causal).run evs).sent k) := by
+  have h := RInv_run _ evs (RInv_init n causal)
+  intro p hp q hq hsl hts
+  simp only [regsOf, List.mem_flatMap, List.mem_filter, decide_eq_true_eq] at hp hq
+  obtain ⟨m1, ⟨hm1, hk1⟩, hs1⟩ := hp
+  obtain ⟨m2, ⟨hm2, hk2⟩, hs2⟩ := hq
+  have hin : ∀ (m : Msg) (x : Nat × Lww), m ∈ ((init n causal).run evs).sent → m.key = k →
+      x ∈ m.val.crdt.slots → InCluster ((init n causal).run evs) (k, x.1, x.2) := by
+    intro m x hm hk hx
+    right
+    simp only [sentRegs, List.mem_flatMap]
+    exact ⟨m, hm, mem_valRegs.mpr ⟨hk.symm, hx⟩⟩
+  exact h.uniq (k, p.1, p.2) (k, q.1, q.2) (hin m1 p hm1 hk1 hs1) (hin m2 q hm2 hk2 hs2) rfl hsl hts
+
+theorem sent_wf_of_run (n : Nat) (causal : Bool) (evs : List Ev) :
+    ∀ m ∈ ((init n causal).run evs).sent, m.val.WF :=
+  fun m hm => ((RInv_run _ evs (RInv_init n causal)).sent_wf m hm).1
+
 end Cluster
 end RedisVerif
